@@ -274,8 +274,17 @@ func (s *sched) doTxn(w *worker, ai int, a Act) {
 	}
 	if a.Commit {
 		w.pendingCommit = tbls
-		wtxn.Commit()
+		rtxn := wtxn.Commit()
 		w.pendingCommit = nil
+		// C02: the snapshot returned by Commit is the state at the point of commit:
+		// it contains exactly this transaction's writes, whatever other writers
+		// have committed to the same tables by the time Commit returns.
+		for i, t := range tbls {
+			got, _, ok := t.Get(rtxn, acctIndex.Query("acct"))
+			if !ok || got != accts[i] {
+				s.fail("commit-snapshot", "worker %d action %d: the ReadTxn returned by Commit shows %+v for table %s, the transaction wrote %+v: the returned snapshot is not the state at the point of commit", w.id, ai, got, t.Name(), accts[i])
+			}
+		}
 	} else {
 		wtxn.Abort()
 	}
@@ -518,6 +527,8 @@ func run(c Case, own string) (res result) {
 		switch s.violSig {
 		case "deadlock", "self-deadlock", "unmodelled-block", "blocked":
 			owner = "C10"
+		case "commit-snapshot", "sum-not-conserved":
+			owner = "C02"
 		}
 		if owner == own {
 			res.sig = s.violSig
@@ -741,6 +752,14 @@ func TestC05Serialised(t *testing.T) {
 }
 
 const ruleC10 = "the C05 workers (incl. refused WriteTxn requests naming an unregistered table handle, which must not leave locks held) plus creating and closing change iterators (Close opens its own write transaction) and table registration; same hook-driven scheduler with a mirror of table-lock ownership. Oracle: the run ends with every worker finished; a state in which every unfinished worker waits for a table lock held by another waiting worker is a deadlock (decided without timers); a worker about to lock a table lock it already holds is a self-deadlock; a released worker that the mirror says is not waiting for a held table lock must reach its next hook point while all others stay parked - if it is found blocked in a synchronisation primitive after the grace period, an open transaction delays a transaction that shares no table with it (or a reader). Non-trivial = two workers were inside a write transaction at once and the schedule had real choice points; distinct by case encoding."
+
+const ruleC02S = "the C05 explorer workload, judged for C02: the ReadTxn returned by every Commit must show exactly the objects that transaction wrote (also when another worker commits to the same tables between this Commit's lock release and its return), and every snapshot a reader takes at any scheduling point shows the conserved cross-table balance sum (a multi-table commit is seen completely or not at all). Non-trivial = a commit was published while another worker was inside a transaction; distinct by case encoding."
+
+func TestC02Sched(t *testing.T) {
+	schedTest(t, "C02", "TestC02Sched", ruleC02S, profile{acts: []int{aTxn, aTxn, aTxn, aTxn, aRead, aRead}}, func(cl []string) bool {
+		return has(cl, "commit_while_other_txn_open") || has(cl, "two_inside")
+	})
+}
 
 func TestC10NoDeadlock(t *testing.T) {
 	schedTest(t, "C10", "TestC10NoDeadlock", ruleC10, profile{acts: []int{aTxn, aTxn, aTxn, aTxn, aTxn, aTxn, aRead, aNewTable, aChanges, aChanges, aCloseIter, aTxnRejected}}, func(cl []string) bool {
